@@ -13,14 +13,23 @@ func init() {
 	common := func(sc *sim.Scenario) *sim.Scenario {
 		sc.Real = []string{"IpfsDHT.GetClosestPeers", "query.go state machine", "qpeerset", "lookup events", "kbucket routing table", "pstoremem peerstore", "ProtocolMessenger"}
 		sc.Stub = []string{"host.Host/network (simhost)", "pb.MessageSender (level A, simnet.Sender)", "remote peers (scripted)"}
-		sc.Faults = []string{"fault_dial_fail", "fault_rpc_error", "fault_lying_reply", "fault_cancel", "time_advance", "cancel_observed"}
+		sc.Faults = []string{"fault_dial_fail", "fault_rpc_error", "fault_lying_reply", "fault_cancel", "time_advance", "cancel_observed", "fault_bad_addr_presentation", "probe_event_consumed_with_calls_parked", "probe_named_bad_then_good"}
 		return sc
 	}
 	sim.Register(common(&sim.Scenario{Prop: "C01", Name: "lookup-faulty", Weight: 3, Run: func(s *sim.Sim) {
 		c := genLookupCfg(s, "random")
 		c.FaultLevel = s.Draw("fault-level", 3)
 		c.Lies = s.Chance("lies", 1, 2)
-		if s.Chance("cancel", 1, 4) {
+		switch s.Draw("filter-kind", 4) {
+		case 1:
+			c.AddrFilter = true // address-sensitive query filter
+		case 2:
+			c.Universe = "random-nofilter"
+		}
+		c.LazyEvents = s.Chance("lazy-events", 1, 4)
+		if !c.LazyEvents && s.Chance("cancel", 1, 4) {
+			// (a cancelled lookup drops events it cannot publish at once, so the
+			// two are not combined)
 			c.CancelAt = s.Range("cancel-at", 1, 40)
 		}
 		s.MaxSteps = 600
@@ -109,15 +118,58 @@ func checkC01(s *sim.Sim, o *lookupObs) {
 			s.Violate("event-request-unsent", "Request event names %s but no dial or request ever reached it", u.Name(p))
 		}
 	}
+	for _, p := range v.causeMismatch {
+		s.Violate("event-cause-mismatch", "a Response event reports the outcome of %s under another peer's cause or together with other peers' outcomes", u.Name(p))
+	}
 	delivAt := map[int]delivery{}
+	firstReply := map[peer.ID]delivery{}
+	firstFail := map[peer.ID]delivery{}
 	for _, d := range o.deliveries {
 		if d.Kind != "dial-ok" {
 			delivAt[d.Step] = d
 		}
+		if d.Kind == "reply" {
+			if _, ok := firstReply[d.Peer]; !ok {
+				firstReply[d.Peer] = d
+			}
+		} else if d.Kind != "dial-ok" {
+			if _, ok := firstFail[d.Peer]; !ok {
+				firstFail[d.Peer] = d
+			}
+		}
 	}
-	for p, st := range v.queried {
+	// find the delivery an event refers to: published in the very step of the
+	// delivery, or (lazy event consumption) the peer's first delivery of that
+	// kind at an earlier step
+	replyFor := func(p peer.ID, st int) (delivery, bool) {
+		if o.cfg.LazyEvents {
+			d, ok := firstReply[p]
+			return d, ok && d.Step <= st
+		}
 		d, ok := delivAt[st]
-		if !ok || d.Peer != p || d.Kind != "reply" {
+		return d, ok && d.Peer == p && d.Kind == "reply"
+	}
+	failFor := func(p peer.ID, st int) (delivery, bool) {
+		if o.cfg.LazyEvents {
+			d, ok := firstFail[p]
+			return d, ok && d.Step <= st
+		}
+		d, ok := delivAt[st]
+		return d, ok && d.Peer == p && (d.Kind == "dial-fail" || d.Kind == "rpc-err" || d.Kind == "cancel")
+	}
+	// namedGood[x]: x was presented with a good address in a reply delivered so far
+	everGood := func(x peer.ID, upTo int) bool {
+		for _, d := range o.deliveries {
+			if d.Kind == "reply" && d.Step < upTo && d.Good[x] {
+				return true
+			}
+		}
+		return false
+	}
+	tblSet := idSet(o.table)
+	for p, st := range v.queried {
+		d, ok := replyFor(p, st)
+		if !ok {
 			s.Violate("event-queried-unanswered", "Response event says %s answered (step %d) but the simulator delivered no reply from it then", u.Name(p), st)
 			continue
 		}
@@ -135,6 +187,9 @@ func checkC01(s *sim.Sim, o *lookupObs) {
 			if o.cfg.Deny[hp] && string(hp) != o.cfg.Key {
 				s.Violate("event-heard-filtered", "Response event for %s lists %s which the query filter rejects", u.Name(p), u.Name(hp))
 			}
+			if o.cfg.AddrFilter && !d.Good[hp] && !tblSet[hp] && !o.seeded[hp] && !everGood(hp, d.Step) && string(hp) != o.cfg.Key {
+				s.Violate("event-heard-filtered", "Response event for %s lists %s although it has only ever been named without a filter-passing address", u.Name(p), u.Name(hp))
+			}
 		}
 		capped := reply
 		if len(capped) > 2*K {
@@ -145,20 +200,32 @@ func checkC01(s *sim.Sim, o *lookupObs) {
 			if rp == self || (o.cfg.Deny[rp] && string(rp) != o.cfg.Key) {
 				continue
 			}
+			if o.cfg.AddrFilter && !d.Good[rp] && string(rp) != o.cfg.Key {
+				continue // presented without a filter-passing address: may be dropped
+			}
+			if o.cfg.AddrFilter && !tblSet[rp] {
+				for _, e := range o.deliveries {
+					if e.Kind == "reply" && e.Step < d.Step && !e.Good[rp] && idSet(e.Peers)[rp] {
+						s.Count("probe_named_bad_then_good")
+						break
+					}
+				}
+			}
 			if !hs[rp] {
 				s.Violate("event-heard-dropped", "reply of %s named %s (within the first 2K) but the Response event omits it", u.Name(p), u.Name(rp))
 			}
 		}
 	}
 	for p, st := range v.unreach {
-		d, ok := delivAt[st]
-		if !ok || d.Peer != p || (d.Kind != "dial-fail" && d.Kind != "rpc-err" && d.Kind != "cancel") {
+		if _, ok := failFor(p, st); !ok {
 			s.Violate("event-unreachable-unfailed", "Response event says %s is unreachable (step %d) but no failure was delivered for it then", u.Name(p), st)
 		}
 	}
 	// every reply/failure delivered during the search phase has its event
+	// (with lazy event consumption the lookup runs behind the deliveries and may
+	// legitimately end before it reaches one: not judged there)
 	for _, d := range o.deliveries {
-		if d.Kind == "dial-ok" {
+		if d.Kind == "dial-ok" || o.cfg.LazyEvents {
 			continue
 		}
 		if _, req := v.requested[d.Peer]; !req {
